@@ -61,6 +61,8 @@ def st_case(draw, keys):
     n = draw(st.integers(2, 60))
     # strictly monotonic offsets from +a*scale (out of contact) down to -scale (full depth)
     top = draw(st.floats(0.05, 3.0))
+    # sometimes the whole abscissa lies on the non-contact side (a baseline stretch only)
+    all_out = draw(st.integers(0, 7)) == 0
     u = sorted(set(draw(st.lists(st.floats(0.0, 1.0), min_size=n, max_size=n))) | {0.0, 1.0})
     efac = draw(st.floats(0.01, 100.0))
     units = dict(zip(md.parameter_keys, md.parameter_units))
@@ -68,7 +70,7 @@ def st_case(draw, keys):
         if units.get(name) == "Pa" and np.isfinite(defaults[name].max):
             # scaled moduli must stay inside their bounds (lmfit clips values to the bounds)
             efac = min(efac, 0.99 * defaults[name].max / v)
-    return {"model": key, "params": p, "cp": cp, "scale": scale, "top": top, "u": u,
+    return {"model": key, "params": p, "cp": cp, "scale": scale, "top": top, "u": u, "all_out": all_out,
             "ascending": draw(st.booleans()),
             "shift": draw(st.sampled_from([0.0, 1.0, -1.0])) * draw(st.floats(0, 10.0)),
             "dbase": draw(st.sampled_from([1.0, -1.0])) * draw(st.floats(1e-12, 1e-6)),
@@ -103,14 +105,17 @@ def check_case(case, ctx):
     u = np.array(case["u"])
     # descending abscissa = approach order: from cp + top*scale down to cp - scale
     x_desc = cp + case["top"] * scale - u * (case["top"] + 1.0) * scale
+    if case.get("all_out"):
+        x_desc = cp + case["top"] * scale * (1.0 + 1e-3 - 0.999 * u)      # ends just above the contact point
     keep = np.concatenate([[True], np.diff(x_desc) < 0])
     x_desc = x_desc[keep]
     if x_desc.size < 2:
         return
     depth = cp - x_desc
     incontact = depth > 0
-    ctx.note_case(case, nontrivial=bool(incontact.sum() >= 2 and (~incontact).sum() >= 1),
-                  classes=[case["model"], "ascending" if case["ascending"] else "descending"])
+    ctx.note_case(case, nontrivial=bool((incontact.sum() >= 2 and (~incontact).sum() >= 1) or case.get("all_out")),
+                  classes=[case["model"], "ascending" if case["ascending"] else "descending"]
+                  + (["all_out_of_contact"] if case.get("all_out") else []))
     x = x_desc[::-1].copy() if case["ascending"] else x_desc.copy()
     params = make_params(md, case)
     before_p, before_x = pstate(params), x.copy()
@@ -201,8 +206,62 @@ def check_case(case, ctx):
                   "compute_contact_point_weights != min(|x-cp|/d, 1)")
 
 
+def check_reregistration(case, ctx):
+    """a key is registered, evaluated, deregistered and registered again with ANOTHER user function: model and
+    residual must be those of the module registered last"""
+    import types
+    import lmfit
+    from nanite import model as nmodel
+    ctx.note_case(case, nontrivial=True, classes=["reregistration"])
+
+    def make(power):
+        m = types.ModuleType("verif_rereg_%s" % power)
+
+        def get_parameter_defaults():
+            p = lmfit.Parameters()
+            p.add("E", value=3e3, min=0)
+            p.add("contact_point", value=0)
+            p.add("baseline", value=0)
+            return p
+
+        def model_func(delta, E, contact_point=0, baseline=0):
+            d = contact_point - delta
+            return E * np.where(d > 0, d, 0.0) ** power + baseline
+
+        m.get_parameter_defaults, m.model_func = get_parameter_defaults, model_func
+        m.model_doc, m.model_key, m.model_name = "rereg", "verif_rereg", "verif rereg %s" % power
+        m.parameter_keys = ["E", "contact_point", "baseline"]
+        m.parameter_names = ["Young's Modulus", "Contact Point", "Force Baseline"]
+        m.parameter_units = ["Pa", "m", "N"]
+        m.valid_axes_x, m.valid_axes_y = ["tip position"], ["force"]
+        return m
+
+    x = np.linspace(1e-6, -1e-6, 31) if not case["ascending"] else np.linspace(-1e-6, 1e-6, 31)
+    force = np.full(31, 1e-9)
+    desc = {"model": "verif_rereg"}
+    try:
+        for power in case["powers"]:
+            m = make(power)
+            md = nmodel.register_model(m)
+            p = m.get_parameter_defaults()
+            want = m.model_func(x, **p.valuesdict())
+            ctx.check(np.array_equal(md.model(p, x), want), "model-of-earlier-registration", desc,
+                      f"after registering exponent {power} under the key, model() does not evaluate that function")
+            ctx.check(np.array_equal(md.residual(p, x, force, 0), force - want), "model-of-earlier-registration", desc,
+                      f"after registering exponent {power} under the key, residual() does not use that function")
+            if case["deregister"]:
+                nmodel.deregister_model(md)
+    finally:
+        nmodel.models_available.pop("verif_rereg", None)
+
+
 def run(ctx):
     from nanite import model as nmodel
+    for i, powers in enumerate([[1.5, 2.0], [2.0, 1.0, 1.5]]):
+        for dereg in (True, False):
+            if (i * 2 + dereg) % ctx.nshards == ctx.shard % 4:
+                ctx.direct(check_reregistration, {"powers": powers, "deregister": dereg, "ascending": bool(i)},
+                           label="reregistration")
     mods = hmodels.register_all()
     try:
         # 'sneddon_spher' comes from the third-party package nanite_model_sneddon_spher
@@ -215,6 +274,8 @@ def run(ctx):
 
 
 def replay(case, ctx):
+    if "powers" in case:
+        return check_reregistration(case, ctx)
     mods = hmodels.register_all()
     try:
         check_case(case, ctx)
